@@ -433,6 +433,20 @@ func TestVerifC18Engine(t *testing.T) {
 			c.searchCheck("index in "+string(c.cfg.Prec), ctx.N(6, 10))
 			restarted := false
 			if r.Chance(0.5) {
+				// sometimes the vector the int8 range was trained on is deleted first: the
+				// range is state of its own and must come back as it was, whatever the log
+				// still holds
+				if c.cfg.Prec == distance.Int8 && len(c.ids) > 3 && r.Chance(0.5) {
+					gone := c.ids[0]
+					cs.Op("VDelete(%s) (first vector added)", gone)
+					if err := c.e.VDelete(c.name, gone); err != nil {
+						cs.Fail("VDelete(%s): %v", gone, err)
+					}
+					c.ids = c.ids[1:]
+					delete(c.raw, gone)
+					delete(c.stored, gone)
+					ctx.Count("engine.int8_first_vector_deleted_before_restart", 1)
+				}
 				cs.Op("Close + Open")
 				if err := c.e.Close(); err != nil {
 					cs.Fail("Close: %v", err)
